@@ -5,8 +5,8 @@ import re
 NAME = "heap"
 HARNESS_SRCS = ["heap.c"]
 REPO_SRCS = ["heap.c", "bintree.c", "common.c"]
-LEAN_TARGETS = ["Cstl.Heap.Props", "m_heap"]
-IMPORTS = ["Cstl.Heap.Props"]
+LEAN_TARGETS = ["Cstl.Heap.Props", "Cstl.Heap.PropsSwap", "m_heap"]
+IMPORTS = ["Cstl.Heap.Props", "Cstl.Heap.PropsSwap"]
 
 THEOREMS = {
     "C07": [
@@ -27,6 +27,9 @@ THEOREMS = {
         "Cstl.Heap.runFrom_inv",
         "Cstl.Heap.run_inv",
         "Cstl.Heap.run_max",
+        # two heaps with cstl_heap_swap
+        "Cstl.Heap.pair_run_inv",
+        "Cstl.Heap.pair_run_max",
     ],
     "C15": [
         "Cstl.Heap.clear_spec",
